@@ -38,12 +38,21 @@ def tier_snap(t):
     }
 
 
+def _public_names(tg):
+    """tg.tierNames read without waking the monitors that may sit on that property (a snapshot is taken from inside monitors)"""
+    from vmon import core
+
+    with core.paused():
+        return list(tg.tierNames)
+
+
 def tg_snap(tg):
     return {
         "min": tg.minTimestamp,
         "max": tg.maxTimestamp,
         "tiers": [tier_snap(t) for t in tg._tierDict.values()],
         "keys": list(tg._tierDict.keys()),
+        "names": _public_names(tg),  # the public view of the same thing (they are one and the same unless something is cached)
     }
 
 
